@@ -1,3 +1,379 @@
--- stub: replaced by the property author
+import SupervisorModel.Model.Envelope
+import SupervisorModel.Model.Tick
+/-
+  C11 — event notifications tell the truth.  Property theorems only.
+  Models: `Sv.Envelope` (header, registry, payload formatters) and `Sv.Tick`; both interpret
+  tables/guards regenerated from /repo on every run (`Sv.Gen.Envelope`, `Sv.Gen.EventNames`,
+  `Sv.Gen.Tick`).
+-/
+set_option linter.unusedSimpArgs false
 namespace Sv.Props.C11
+open Sv Sv.Envelope Sv.Gen.Envelope Sv.Gen.EventNames
+
+/-- **eventname_concrete**: every concrete event class (a class of supervisor/events.py that
+    has no subclass there) is registered under exactly one name, and `getEventNameByType`
+    returns that name.  Decided over the whole regenerated registry. -/
+theorem eventname_concrete :
+    ∀ c ∈ concrete,
+      (registry.filter fun e => e.2 == c).length = 1 ∧
+      ∃ nm, getEventNameByType c = some nm ∧ (nm, c) ∈ registry := by
+  decide
+
+/-- registered names are distinct (a name identifies one type) -/
+theorem registry_names_distinct : (registry.map (·.1)).Nodup := by decide
+
+/-! ### len -/
+
+theorem utf8_ascii_length (t : Text) (h : ∀ c ∈ t, c < 128) : (utf8 t).length = t.length := by
+  induction t with
+  | nil => rfl
+  | cons c r ih =>
+    have hc : c < 128 := h c (List.mem_cons_self ..)
+    have hr := ih (fun x hx => h x (List.mem_cons_of_mem _ hx))
+    simp only [utf8, List.flatMap_cons, List.length_append, List.length_cons] at hr ⊢
+    rw [hr]
+    have : utf8Cp c = [UInt8.ofNat c] := by
+      unfold utf8Cp
+      have : c < 0x80 := hc
+      simp [this]
+    rw [this]
+    simp
+    omega
+
+/-- the value sent in the `len` field is the decimal rendering of the number of *characters* of
+    the payload -/
+theorem len_field_value (i : Inp) : fieldValue i "len" = some (dec i.payload.length) := by
+  simp [fieldValue, fields, List.lookup, srcValue]
+
+/-- **len_ascii_partial** — full statement (FALSE, open finding F2): "len is the exact number
+    of payload bytes that follow", i.e. `fieldValue i "len" = some (dec (utf8 i.payload).length)`
+    for every payload.  Proved here under the hypothesis that the payload is ASCII; the
+    missing part is every payload with a code point ≥ 128. -/
+theorem len_ascii_partial (i : Inp) (h : ∀ c ∈ i.payload, c < 128) :
+    fieldValue i "len" = some (dec (utf8 i.payload).length) := by
+  rw [len_field_value, utf8_ascii_length _ h]
+
+/-- counterexample to the unrestricted statement (F2): payload "é" is announced as `len:1`
+    and two bytes follow. -/
+theorem len_not_byte_length :
+    ∃ i : Inp, fieldValue i "len" ≠ some (dec (utf8 i.payload).length) :=
+  ⟨⟨[], 0, [], 0, [], [233]⟩, by decide⟩
+
+/-- a non-ASCII code point always takes more than one byte, so the defect is exactly the
+    non-ASCII payloads -/
+theorem utf8Cp_nonascii_longer (c : Nat) (h : 128 ≤ c) : 2 ≤ (utf8Cp c).length := by
+  unfold utf8Cp
+  have : ¬ c < 0x80 := by omega
+  simp only [this, if_false]
+  split
+  · simp
+  · split <;> simp
+
+example : (utf8 [233, 8364, 128512]).length = 9 := by decide
+
+/-! ### the header: what a listener parses is what was sent -/
+
+theorem splitFirst_append (sep : Nat) (a b : Text) (h : sep ∉ a) :
+    splitFirst sep (a ++ sep :: b) = some (a, b) := by
+  induction a with
+  | nil => simp [splitFirst]
+  | cons c r ih =>
+    have hc : c ≠ sep := fun e => h (e ▸ List.mem_cons_self ..)
+    have hr : sep ∉ r := fun m => h (List.mem_cons_of_mem _ m)
+    simp [splitFirst, hc, ih hr]
+
+theorem splitOn_nosep (sep : Nat) (a : Text) (h : sep ∉ a) : splitOn sep a = [a] := by
+  induction a with
+  | nil => rfl
+  | cons c r ih =>
+    have hc : c ≠ sep := fun e => h (e ▸ List.mem_cons_self ..)
+    have hr : sep ∉ r := fun m => h (List.mem_cons_of_mem _ m)
+    simp [splitOn, hc, ih hr]
+
+theorem splitOn_append (sep : Nat) (a b : Text) (h : sep ∉ a) :
+    splitOn sep (a ++ sep :: b) = a :: splitOn sep b := by
+  induction a with
+  | nil => simp [splitOn]
+  | cons c r ih =>
+    have hc : c ≠ sep := fun e => h (e ▸ List.mem_cons_self ..)
+    have hr : sep ∉ r := fun m => h (List.mem_cons_of_mem _ m)
+    simp [splitOn, hc, ih hr]
+
+/-- keys free of space, colon and newline; values free of space and newline (values may contain
+    colons: the listener splits at the *first* colon) -/
+def Good (p : Text × Text) : Prop :=
+  32 ∉ p.1 ∧ 58 ∉ p.1 ∧ 10 ∉ p.1 ∧ 32 ∉ p.2 ∧ 10 ∉ p.2
+
+theorem tok_free (p : Text × Text) (h : Good p) : 32 ∉ tok p ∧ 10 ∉ tok p := by
+  obtain ⟨a, _, c, d, e⟩ := h
+  simp [tok, a, c, d, e]
+
+theorem render_free (ps : List (Text × Text)) (h : ∀ p ∈ ps, Good p) : 10 ∉ renderPairs ps := by
+  induction ps with
+  | nil => simp [renderPairs]
+  | cons p r ih =>
+    have hp := tok_free p (h p (List.mem_cons_self ..))
+    have hr := ih (fun x hx => h x (List.mem_cons_of_mem _ hx))
+    cases r with
+    | nil => simpa [renderPairs] using hp.2
+    | cons q r' =>
+      simp only [renderPairs, List.mem_append, List.mem_cons, not_or]
+      exact ⟨hp.2, by decide, hr⟩
+
+theorem splitOn_render (ps : List (Text × Text)) (hne : ps ≠ []) (h : ∀ p ∈ ps, Good p) :
+    splitOn 32 (renderPairs ps) = ps.map tok := by
+  induction ps with
+  | nil => exact absurd rfl hne
+  | cons p r ih =>
+    have hp := tok_free p (h p (List.mem_cons_self ..))
+    cases r with
+    | nil => simp [renderPairs, splitOn_nosep _ _ hp.1]
+    | cons q r' =>
+      have := ih (by simp) (fun x hx => h x (List.mem_cons_of_mem _ hx))
+      simp only [renderPairs, List.map_cons] at this ⊢
+      rw [splitOn_append _ _ _ hp.1, this]
+
+theorem parsePairs_tok (ps : List (Text × Text)) (h : ∀ p ∈ ps, Good p) :
+    parsePairs (ps.map tok) = some ps := by
+  induction ps with
+  | nil => rfl
+  | cons p r ih =>
+    have hp := h p (List.mem_cons_self ..)
+    have hr := ih (fun x hx => h x (List.mem_cons_of_mem _ hx))
+    simp only [List.map_cons, parsePairs, tok, splitFirst_append 58 p.1 p.2 hp.2.1, hr]
+
+/-- **header_roundtrip** (general form): a header line rendered from any non-empty list of
+    key/value pairs whose keys contain no space, colon or newline and whose values contain no
+    space or newline, followed by a newline and any payload, is parsed by the reference
+    listener ("up to the first newline; split on spaces; split each token at its first colon")
+    into exactly those pairs, in order, and exactly that payload. -/
+theorem header_roundtrip (ps : List (Text × Text)) (hne : ps ≠ []) (h : ∀ p ∈ ps, Good p) (body : Text) :
+    parseEnvelope (renderPairs ps ++ 10 :: body) = some (ps, body) := by
+  unfold parseEnvelope
+  rw [splitFirst_append 10 _ _ (render_free ps h)]
+  simp only [splitOn_render ps hne h, parsePairs_tok ps h]
+
+theorem decAux_digits (f n : Nat) : ∀ d ∈ decAux f n, 48 ≤ d ∧ d ≤ 57 := by
+  induction f generalizing n with
+  | zero => simp [decAux]
+  | succ f ih =>
+    intro d hd
+    unfold decAux at hd
+    split at hd
+    · simp at hd; omega
+    · simp only [List.mem_append, List.mem_singleton] at hd
+      rcases hd with hd | hd
+      · exact ih _ d hd
+      · omega
+
+theorem dec_free (n : Nat) : 32 ∉ dec n ∧ 58 ∉ dec n ∧ 10 ∉ dec n := by
+  refine ⟨?_, ?_, ?_⟩ <;> intro h <;> have := decAux_digits _ _ _ h <;> omega
+
+/-- the seven header pairs `_eventEnvelope` sends, in order -/
+def sentPairs (i : Inp) : List (Text × Text) :=
+  [(ofString "ver", ofString "3.0"), (ofString "server", i.identifier), (ofString "serial", dec i.serial),
+   (ofString "pool", i.poolName), (ofString "poolserial", dec i.poolSerial),
+   (ofString "eventname", i.eventName), (ofString "len", dec i.payload.length)]
+
+theorem envelope_eq (i : Inp) : envelope i = some (renderPairs (sentPairs i) ++ 10 :: i.payload) := by
+  simp [envelope, headerPairs, headerTokens, pairsOf, fieldValue, fields, List.lookup, srcValue, bodyField, sentPairs]
+
+/-- **header_roundtrip** for `_eventEnvelope`: when the supervisor identifier, the pool name and
+    the event name contain no space or newline, the listener obtains exactly the keys ver,
+    server, serial, pool, poolserial, eventname, len — in this order, each once — with the values
+    sent, and the payload is exactly what follows the first newline. -/
+theorem envelope_roundtrip (i : Inp)
+    (h1 : 32 ∉ i.identifier ∧ 10 ∉ i.identifier) (h2 : 32 ∉ i.poolName ∧ 10 ∉ i.poolName)
+    (h3 : 32 ∉ i.eventName ∧ 10 ∉ i.eventName) :
+    ∃ t, envelope i = some t ∧ parseEnvelope t = some (sentPairs i, i.payload) := by
+  refine ⟨_, envelope_eq i, ?_⟩
+  apply header_roundtrip _ (by simp [sentPairs])
+  intro p hp
+  simp only [sentPairs, List.mem_cons, List.mem_nil_iff, or_false] at hp
+  have d1 := dec_free i.serial
+  have d2 := dec_free i.poolSerial
+  have d3 := dec_free i.payload.length
+  rcases hp with rfl | rfl | rfl | rfl | rfl | rfl | rfl
+  · exact ⟨by decide, by decide, by decide, by decide, by decide⟩
+  · exact ⟨by show _ ∉ ofString _; decide, by show _ ∉ ofString _; decide, by show _ ∉ ofString _; decide, h1.1, h1.2⟩
+  · exact ⟨by show _ ∉ ofString _; decide, by show _ ∉ ofString _; decide, by show _ ∉ ofString _; decide, d1.1, d1.2.2⟩
+  · exact ⟨by show _ ∉ ofString _; decide, by show _ ∉ ofString _; decide, by show _ ∉ ofString _; decide, h2.1, h2.2⟩
+  · exact ⟨by show _ ∉ ofString _; decide, by show _ ∉ ofString _; decide, by show _ ∉ ofString _; decide, d2.1, d2.2.2⟩
+  · exact ⟨by show _ ∉ ofString _; decide, by show _ ∉ ofString _; decide, by show _ ∉ ofString _; decide, h3.1, h3.2⟩
+  · exact ⟨by show _ ∉ ofString _; decide, by show _ ∉ ofString _; decide, by show _ ∉ ofString _; decide, d3.1, d3.2.2⟩
+
+-- non-vacuity
+example : parseEnvelope (renderPairs [([118], [51]), ([108], [58, 49])] ++ 10 :: [120, 32, 10]) =
+    some ([([118], [51]), ([108], [58, 49])], [120, 32, 10]) := by decide
+
+/-! ### payloads: fields and their order -/
+
+/-- PROCESS_STATE_EXITED: processname, groupname, from_state, expected, pid — in this order,
+    with the values the event object was given when it was created -/
+theorem exited_payload (i : PSInp) :
+    processStatePayload ["ProcessStateExitedEvent", "ProcessStateEvent", "Event"] i =
+      some (joinItems [(ofString "processname", i.processname), (ofString "groupname", i.groupname),
+        (ofString "from_state", i.fromState), (ofString "expected", if i.expected then [49] else [48]),
+        (ofString "pid", decInt i.pid)]) := by
+  simp [processStatePayload, extraOf, extraValues, List.lookup, processStateLead, psItems, psValue]
+
+/-- PROCESS_STATE_STARTING / BACKOFF: …, tries -/
+theorem starting_payload (i : PSInp) :
+    processStatePayload ["ProcessStateStartingEvent", "ProcessStateStartingOrBackoffEvent", "ProcessStateEvent", "Event"] i =
+      some (joinItems [(ofString "processname", i.processname), (ofString "groupname", i.groupname),
+        (ofString "from_state", i.fromState), (ofString "tries", decInt i.tries)]) := by
+  simp [processStatePayload, extraOf, extraValues, List.lookup, processStateLead, psItems, psValue]
+
+/-- PROCESS_STATE_RUNNING (likewise STOPPING, STOPPED): …, pid -/
+theorem running_payload (i : PSInp) :
+    processStatePayload ["ProcessStateRunningEvent", "ProcessStateEvent", "Event"] i =
+      some (joinItems [(ofString "processname", i.processname), (ofString "groupname", i.groupname),
+        (ofString "from_state", i.fromState), (ofString "pid", decInt i.pid)]) := by
+  simp [processStatePayload, extraOf, extraValues, List.lookup, processStateLead, psItems, psValue]
+
+/-- PROCESS_STATE_FATAL / UNKNOWN: the three leading fields only -/
+theorem fatal_payload (i : PSInp) :
+    processStatePayload ["ProcessStateFatalEvent", "ProcessStateEvent", "Event"] i =
+      some (joinItems [(ofString "processname", i.processname), (ofString "groupname", i.groupname),
+        (ofString "from_state", i.fromState)]) := by
+  simp [processStatePayload, extraOf, extraValues, List.lookup, processStateLead, psItems, psValue]
+
+/-! ### ticks -/
+section ticks
+open Sv.Tick Sv.Gen.Tick
+
+theorem filterMap_congr' {α β : Type} (f g : α → Option β) (l : List α) (h : ∀ x ∈ l, f x = g x) :
+    l.filterMap f = l.filterMap g := by
+  induction l with
+  | nil => rfl
+  | cons a r ih =>
+    have ha := h a (List.mem_cons_self ..)
+    have hr := ih (fun x hx => h x (List.mem_cons_of_mem _ hx))
+    simp only [List.filterMap_cons, ha, hr]
+
+theorem tickPeriod_spec (p now : Int) (last : Option Int) :
+    (tickPeriod p now last).1 = some (timeslice p now) ∧
+    (tickPeriod p now last).2 =
+      (match last with
+       | none => none
+       | some l => if timeslice p now ≠ l then some (timeslice p now) else none) := by
+  cases last with
+  | none => simp [tickPeriod, tick_g1, tick_g2]
+  | some l =>
+    by_cases h : timeslice p now = l
+    · simp [tickPeriod, tick_g1, tick_g2, h]
+    · simp [tickPeriod, tick_g1, tick_g2, h]
+
+/-- what one pass announces for a list of (class, period) pairs, given the dict before -/
+def announced (now : Int) (t : Ticks) (L : List (Nat × Int)) : List Ev :=
+  L.filterMap fun e => ((tickPeriod e.2 now (t.get e.2)).2).map fun w => ⟨e.1, e.2, w⟩
+
+theorem tickLoop_spec (now : Int) (L : List (Nat × Int)) (hL : (L.map (·.2)).Nodup) :
+    ∀ (t : Ticks) (out : List Ev),
+      (tickLoop now L t out).2 = out ++ announced now t L ∧
+      ∀ q, (tickLoop now L t out).1.get q =
+        if q ∈ L.map (·.2) then (tickPeriod q now (t.get q)).1 else t.get q := by
+  induction L with
+  | nil => intro t out; simp [tickLoop, announced]
+  | cons e r ih =>
+    intro t out
+    obtain ⟨cls, p⟩ := e
+    simp only [List.map_cons, List.nodup_cons] at hL
+    obtain ⟨hp, hr⟩ := hL
+    have key : ∀ q ∈ r.map (·.2), q ≠ p := fun q hq h => hp (h ▸ hq)
+    simp only [tickLoop]
+    obtain ⟨h1, h2⟩ := ih hr ⟨fun q => if q = p then (tickPeriod p now (t.get p)).1 else t.get q⟩
+      (match (tickPeriod p now (t.get p)).2 with
+       | some w => out ++ [⟨cls, p, w⟩]
+       | none => out)
+    refine ⟨?_, ?_⟩
+    · refine h1.trans ?_
+      have hann : announced now ⟨fun q => if q = p then (tickPeriod p now (t.get p)).1 else t.get q⟩ r
+          = announced now t r := by
+        unfold announced
+        apply filterMap_congr'
+        intro e he
+        have : e.2 ≠ p := key e.2 (List.mem_map_of_mem he)
+        simp [this]
+      rw [hann]
+      cases hw : (tickPeriod p now (t.get p)).2 with
+      | none => simp [announced, hw]
+      | some w => simp [announced, hw]
+    · intro q
+      refine (h2 q).trans ?_
+      by_cases hq : q = p
+      · subst hq
+        have : q ∉ r.map (·.2) := hp
+        simp [this]
+      · by_cases hqr : q ∈ r.map (·.2)
+        · simp [hq, hqr]
+        · simp [hq, hqr]
+
+/-- the start of the time slice of `p` seconds containing the clock reading -/
+abbrev slice (p now : Int) : Int := timeslice p now
+
+/-- what the property demands of a pass at reading `now` following a pass at reading `prev` -/
+def expected (prev now : Int) : List Ev :=
+  tickEvents.filterMap fun e =>
+    if slice e.2 now ≠ slice e.2 prev then some ⟨e.1, e.2, slice e.2 now⟩ else none
+
+def expectedRun : Int → List Int → List (List Ev)
+  | _, [] => []
+  | prev, now :: r => expected prev now :: expectedRun now r
+
+theorem tickEvents_nodup : (tickEvents.map (·.2)).Nodup := by decide
+
+theorem tick_pass (now : Int) (t : Ticks) :
+    (tick now t).2 = announced now t tickEvents ∧
+    ∀ p ∈ tickEvents.map (·.2), (tick now t).1.get p = some (slice p now) := by
+  obtain ⟨h1, h2⟩ := tickLoop_spec now tickEvents tickEvents_nodup t []
+  refine ⟨by simpa [tick] using h1, ?_⟩
+  intro p hp
+  have := h2 p
+  simp only [hp, if_true] at this
+  rw [tick, this]
+  exact (tickPeriod_spec p now _).1
+
+theorem runFrom_exact (prev : Int) (clock : List Int) :
+    ∀ t : Ticks, (∀ p ∈ tickEvents.map (·.2), t.get p = some (slice p prev)) →
+      Tick.runFrom t clock = expectedRun prev clock := by
+  induction clock generalizing prev with
+  | nil => intro t _; rfl
+  | cons now r ih =>
+    intro t ht
+    obtain ⟨h1, h2⟩ := tick_pass now t
+    simp only [Tick.runFrom, expectedRun]
+    rw [ih now _ h2, h1]
+    congr 1
+    unfold announced expected
+    apply filterMap_congr'
+    intro e he
+    have hp : e.2 ∈ tickEvents.map (·.2) := List.mem_map_of_mem he
+    rw [(tickPeriod_spec e.2 now _).2, ht e.2 hp]
+    by_cases h : slice e.2 now = slice e.2 prev
+    · simp [h]
+    · simp [h]
+
+/-- **tick_exact**: for every sequence of clock readings t₀ t₁ … (irregular, skipping several
+    slices, going backwards, repeating), the first pass announces nothing and pass i announces
+    TICK_p exactly for the periods p whose time slice at tᵢ differs from the one at tᵢ₋₁, in
+    the order of TICK_EVENTS, with `when` = the start of the new slice. -/
+theorem tick_exact (t0 : Int) (clock : List Int) :
+    Tick.run (t0 :: clock) = [] :: expectedRun t0 clock := by
+  have h0 := tick_pass t0 ⟨fun _ => none⟩
+  simp only [Tick.run, Tick.runFrom]
+  rw [runFrom_exact t0 clock _ h0.2, h0.1]
+  congr 1
+  unfold announced
+  apply List.filterMap_eq_nil_iff.mpr
+  intro e _
+  rw [(tickPeriod_spec e.2 t0 none).2]
+  rfl
+
+-- non-vacuity: a clock that skips, repeats and goes backwards
+example : Tick.run [0, 5119, 5120, 5120, 1024 * 61, 1024 * 3] =
+    [[], [], [⟨25, 5, 5⟩], [], [⟨25, 5, 60⟩, ⟨26, 60, 60⟩], [⟨25, 5, 0⟩, ⟨26, 60, 0⟩]] := by decide
+
+end ticks
+
 end Sv.Props.C11
